@@ -367,11 +367,14 @@ func c09Sched(c *vrep.Ctx) {
 	inputs = append(inputs, []byte(head+"aa bb cc dd ee ff gg hh"), []byte(head+"kk ll mm nn oo zqpadxxx"))
 	// input 10: the big document itself; input 11: the same with a word changed in the middle
 	inputs = append(inputs, c09BigDoc(), []byte(strings.Replace(string(c09BigDoc()), " wcbb ", " zqchanged ", 1)))
+	// inputs 12 and 13: words with letters and quotes outside ASCII (U+2019 and U+0419 agree in their
+	// low byte, as do U+201C and U+041C): per-character tables shared between calls see them
+	inputs = append(inputs, []byte("zqa aa bb cc dd ee ff gg hh the licensor\u2019s \u201cwork\u201d \u00e9t\u00e9 zqb"), []byte("\u0419\u043e\u0434 \u041c\u0438\u0440 \u03b1\u03b2\u03b3 aa bb cc dd ee ff gg ii jj \u0419\u041c"))
 	if len(inputs[8]) != len(inputs[9]) || len(head) < 4200 {
 		panic("c09: the twin inputs must have equal length and a common head of more than 4 KB")
 	}
 	// scenario: which inputs the threads use (forced collisions first)
-	scens := [][]int{{0, 0}, {0, 1}, {1, 3}, {3, 2}, {0, 1, 3}, {1, 1, 0}, {4, 4}, {4, 5}, {6, 0}, {6, 6}, {7, 4}, {8, 9}, {9, 8, 8}, {10, 11}, {10, 10}}
+	scens := [][]int{{0, 0}, {0, 1}, {1, 3}, {3, 2}, {0, 1, 3}, {1, 1, 0}, {4, 4}, {4, 5}, {6, 0}, {6, 6}, {7, 4}, {8, 9}, {9, 8, 8}, {10, 11}, {10, 10}, {12, 13}, {13, 12, 12}}
 	pick := scens[scen%len(scens)]
 	if nthreads < len(pick) {
 		pick = pick[:nthreads]
